@@ -544,6 +544,16 @@ impl NewCfg {
         )
     }
     pub fn tstate(&self) -> TState {
+        let ts = self.tstate_full();
+        let mut ts = ts;
+        if let Some(k) = CFG_TRUNC.with(|c| c.get()) {
+            // configuration space cut off after `k` bytes (oracle-only cases: the constructor fails at
+            // whichever field no longer fits, wherever in its sequence it reads that field)
+            ts.config.truncate(k);
+        }
+        ts
+    }
+    fn tstate_full(&self) -> TState {
         let mut ts = TState::new(self.d.device_type(), self.offered, 8, self.max);
         ts.legacy = self.legacy;
         // the status register does not read back what the driver wrote: the device has cleared
@@ -562,6 +572,11 @@ impl NewCfg {
         };
         ts
     }
+}
+
+thread_local! {
+    /// see `NewCfg::tstate`
+    pub static CFG_TRUNC: std::cell::Cell<Option<usize>> = const { std::cell::Cell::new(None) };
 }
 
 pub fn err_name(e: &Error) -> String {
@@ -659,6 +674,18 @@ fn gated_ops(c: &mut Case, cfg: &NewCfg, b: &mut Built<ModelTransport>, st: &Rc<
                 Err(e) => format!("err {}", err_name(&e)),
             });
             let neg = st.borrow().driver_features;
+            if neg & 2 == 0 {
+                // the helpers built on get_edid are gated just the same (oracle only: without the feature
+                // nothing reaches the transport, so nothing is recorded either)
+                let before = dev.borrow().chains;
+                let log_before = st.borrow().log.len();
+                let r = guarded(|| (drv.edid_preferred_resolution().is_ok(), drv.edid_supported_resolutions().is_ok()));
+                if dev.borrow().chains != before || st.borrow().log.len() != log_before {
+                    c.fail(format!("gpu: an EDID helper (edid_preferred_resolution / edid_supported_resolutions) put a request on the control queue although EDID was not negotiated (results {:?})", r));
+                }
+                let (_, m) = model_log(&st.borrow(), *mark);
+                *mark = m;
+            }
             let l = dev.borrow();
             if neg & 2 == 0 && (l.chains != 0 || !t.is_empty()) {
                 c.fail("gpu: GET_EDID sent although EDID was not negotiated");
@@ -887,6 +914,15 @@ pub fn run(ctx: &Ctx) -> (Vec<Case>, String, bool, BTreeMap<String, String>) {
     // queue level: a queue created without RING_INDIRECT_DESC never publishes an indirect table, however
     // full it is (the structured queue stream of C03 with that one oracle)
     cases.extend(crate::cq_queue::run_structured(ctx, "C08", 400, 4000));
+    // the net header length follows VERSION_1 in every accessor of a received buffer (C16's stream: frames
+    // through the buffered driver with and without VERSION_1; packet() and packet_mut() are the same frame)
+    let mut n16 = crate::c16_net::run(ctx).0;
+    for c in n16.iter_mut() {
+        c.oracle_failures.retain(|f| f.contains("packet_mut") || f.contains("-byte header"));
+        c.id = format!("C08-via-{}", c.id);
+        c.tag("net-header");
+    }
+    cases.extend(n16);
     let selftest = crate::c09_drop::oracle_selftest(ctx.case_id("C08", "oracle-selftest", 0));
     if ctx.wants(&selftest.id) {
         cases.push(selftest);
